@@ -167,6 +167,15 @@ func verifyFunction(prog *Program, db *SpecDB, con *Contract) (res *FuncResult) 
 	for _, l := range con.Lemmas {
 		reqs = append(reqs, vc.lemmaInstance(l, env))
 	}
+	var punless []Term
+	for _, c := range con.PanicsUnless {
+		t := f.evalClause(env, c, con)
+		if con.PanicsNever {
+			reqs = append(reqs, t) // caller must establish it
+		} else {
+			punless = append(punless, vc.define("punless", "Bool", t))
+		}
+	}
 	st.pc = vc.define("pc", "Bool", andT(reqs...))
 	vc.addObl(&Obligation{Name: con.Name + "/requires-sat", Kind: "cover", Props: con.Props, PC: st.pc, ExpectSat: true, Src: "vacuity guard"})
 	f.headerSt[fn.Blocks[0]] = st
@@ -184,6 +193,17 @@ func verifyFunction(prog *Program, db *SpecDB, con *Contract) (res *FuncResult) 
 			}
 		}
 		vc.addObl(&Obligation{Name: fmt.Sprintf("%s/cover/return#%d", con.Name, k), Kind: "cover", Props: con.Props, PC: r.st.pc, ExpectSat: true, Soft: true, Src: "return site reachable"})
+		for i, pu := range punless {
+			c := con.PanicsUnless[i]
+			label := c.Label
+			if label == "" {
+				label = fmt.Sprint(i)
+			}
+			// a normal return implies the entry condition held (otherwise the function must have panicked)
+			vc.addObl(&Obligation{Name: fmt.Sprintf("%s/panics-unless[%s]/return#%d", con.Name, label, k), Kind: "panics-unless",
+				Props: c.Props, PC: r.st.pc, Goal: pu, Src: c.Src})
+			r.st.pc = vc.define("pc", "Bool", andT(r.st.pc, pu))
+		}
 		for i, c := range con.Ensures {
 			label := c.Label
 			if label == "" {
